@@ -733,6 +733,124 @@ def rule_r9(ctx) -> List[R.Inst]:
                    construct=f"no sort of {sorted(derived)} by .measure" + (f"; sorts {other[0][0]}" if other else ""))]
 
 
+def rule_r10(ctx) -> List[R.Inst]:
+    """the tempo sweep is a merge of two sorted sequences (note positions, tempo events): the look-ahead tests the event that
+    is consumed next, inside its bounds, against the current note position; every tempo event is consumed — those after the
+    last note too — so every tempo point gets its time"""
+    M = ctx.M
+    rid = "C07.R10"
+    fn = M.fn(MAP + ".read_pkgs")
+    file = M.mods[fn.mod].rel
+    insts = []
+    fors = [n for n in fn.node.body if isinstance(n, ast.For)]
+    sweep = next((f for f in fors if any(isinstance(x, ast.While) for x in ast.walk(f))), None)
+    if sweep is None or not isinstance(sweep.target, ast.Name):
+        return [R.undec(rid, "sweep", file, fn.node.lineno, "sweep loop (for <position> ...: while ...) not found")]
+    q = sweep.target.id
+    wh = next(x for x in ast.walk(sweep) if isinstance(x, ast.While))
+    # cursor: the name incremented in the while body and used as an index
+    incs = [s_ for s_ in wh.body if isinstance(s_, ast.AugAssign) and isinstance(s_.target, ast.Name) and isinstance(s_.op, ast.Add)
+            and isinstance(s_.value, ast.Constant) and s_.value.value == 1]
+    if len(incs) != 1:
+        return [R.undec(rid, "sweep", file, wh.lineno, "cursor increment not found in the sweep")]
+    ix = incs[0].target.id
+    inits = [n for n in fn.node.body if isinstance(n, ast.Assign) and isinstance(n.targets[0], ast.Name) and n.targets[0].id == ix]
+    init = None
+    if len(inits) == 1:
+        try:
+            init = ast.literal_eval(inits[0].value)
+        except Exception:
+            init = None
+
+    def idx_canon(e, shift=0):
+        r = sym.canon(e, lambda n: "IX" if isinstance(n, ast.Name) and n.id == ix else None)
+        if shift:
+            r = r + sym.parse(str(shift))
+        return r
+    # the consumed element: E[<index>] read in the body; relative to the cursor value BEFORE the iteration
+    cons = None
+    seen_inc = False
+    for s_ in wh.body:
+        if s_ is incs[0]:
+            seen_inc = True
+            continue
+        for x in ast.walk(s_):
+            if isinstance(x, ast.Subscript) and isinstance(x.value, ast.Name) and any(
+                    isinstance(y, ast.Name) and y.id == ix for y in ast.walk(x.slice)) and cons is None:
+                cons = (x.value.id, idx_canon(x.slice, 0), seen_inc, x)
+    if cons is None:
+        return [R.undec(rid, "sweep", file, wh.lineno, "consumed event E[cursor] not found in the sweep body")]
+    ev_list, c_idx, after_inc, cnode = cons
+    consumed = c_idx + sym.parse("1") if after_inc else c_idx          # in terms of the cursor before the iteration
+    # the test: bound and look-ahead
+    conj = wh.test.values if isinstance(wh.test, ast.BoolOp) and isinstance(wh.test.op, ast.And) else [wh.test]
+    bound = ahead = None
+    for c in conj:
+        if not (isinstance(c, ast.Compare) and len(c.ops) == 1):
+            continue
+        l, r_, op = c.left, c.comparators[0], c.ops[0]
+        if isinstance(r_, ast.Call) and call_name(r_) == "len" and unparse(r_.args[0]) == ev_list and isinstance(op, ast.Lt):
+            bound = idx_canon(l)
+        elif isinstance(l, ast.Call) and call_name(l) == "len" and unparse(l.args[0]) == ev_list and isinstance(op, ast.Gt):
+            bound = idx_canon(r_)
+        else:
+            for a, b, o in ((l, r_, op), (r_, l, {ast.Lt: ast.Gt, ast.LtE: ast.GtE, ast.Gt: ast.Lt, ast.GtE: ast.LtE}.get(type(op), type(None))())):
+                if isinstance(a, ast.Attribute) and isinstance(a.value, ast.Subscript) and unparse(a.value.value) == ev_list and \
+                        isinstance(b, ast.Name) and b.id == q:
+                    ahead = (idx_canon(a.value.slice), a.attr, type(o).__name__, c)
+    if ahead is None:
+        insts.append(R.viol(rid, "sweep:look-ahead", file, wh.lineno,
+                            f"the sweep does not compare the position of the next tempo event ({ev_list}[…].measure) with the current "
+                            f"note position '{q}': which events are applied before a note is not decided by their positions",
+                            construct=unparse(wh.test)[:160]))
+        return insts
+    a_idx, a_attr, a_op, a_node = ahead
+    probs = []
+    if not a_idx.same(consumed):
+        probs.append(f"the look-ahead reads {ev_list}[{sym.text(a_node.left.value.slice) if isinstance(a_node.left, ast.Attribute) else '…'}] "
+                     f"but the iteration consumes a different element (the one just consumed is tested again / one is skipped)")
+    if a_op not in ("LtE", "Lt"):
+        probs.append(f"an event is applied when its position is {a_op} the note position; it must be applied when it lies at or before it")
+    if a_attr != "measure":
+        probs.append(f"the look-ahead compares '.{a_attr}', the events are sorted by '.measure'")
+    if probs:
+        insts.append(R.viol(rid, "sweep:look-ahead", file, a_node.lineno, "; ".join(probs), construct=unparse(wh.test)[:160]))
+    else:
+        insts.append(R.ok(rid, "sweep:look-ahead", file, a_node.lineno, idiom=f"{ev_list}[next].measure <= {q}, next = the element consumed"))
+    if bound is None or not bound.same(a_idx):
+        insts.append(R.viol(rid, "sweep:bounds", file, wh.lineno,
+                            f"the look-ahead index is not tested against len({ev_list}) in the same condition: with no (further) tempo event "
+                            f"the look-ahead raises IndexError / compares with a stale value", construct=unparse(wh.test)[:160]))
+    else:
+        insts.append(R.ok(rid, "sweep:bounds", file, wh.lineno, idiom=f"next < len({ev_list}) guards the look-ahead"))
+    if init is None or not (sym.parse(str(init)) + (consumed - sym.parse("IX"))).same(sym.parse("0")):
+        insts.append(R.viol(rid, "sweep:first", file, (inits[0] if inits else wh).lineno,
+                            f"with the cursor starting at {init} the first element consumed is not {ev_list}[0]",
+                            construct=f"{ix} = {init}; consumes {ev_list}[{ix}{' + 1' if after_inc else ''}]"))
+    else:
+        insts.append(R.ok(rid, "sweep:first", file, inits[0].lineno, idiom=f"first consumed element is {ev_list}[0]"))
+    # trailing events: a loop after the sweep over E[next:] that assigns .offset
+    pos = fn.node.body.index(sweep)
+    trailing = None
+    for n in fn.node.body[pos + 1:]:
+        if isinstance(n, ast.For) and isinstance(n.iter, ast.Subscript) and unparse(n.iter.value) == ev_list and \
+                isinstance(n.iter.slice, ast.Slice) and n.iter.slice.lower is not None and n.iter.slice.upper is None:
+            if idx_canon(n.iter.slice.lower).same(sym.parse("IX + 1") if after_inc else sym.parse("IX")) and any(
+                    isinstance(x, ast.Assign) and isinstance(x.targets[0], ast.Attribute) and x.targets[0].attr == "offset"
+                    for x in ast.walk(n)):
+                trailing = n
+        if isinstance(n, ast.While) and any(isinstance(x, ast.Call) and call_name(x) == "len" for x in ast.walk(n.test)) and any(
+                isinstance(x, ast.Assign) and isinstance(x.targets[0], ast.Attribute) and x.targets[0].attr == "offset" for x in ast.walk(n)):
+            trailing = n
+    if trailing is None:
+        insts.append(R.viol(rid, "sweep:trailing", file, sweep.lineno,
+                            f"tempo events after the last note are never consumed: their tempo points keep the time 0 they were created with",
+                            construct=f"no loop over {ev_list}[{ix} + 1:] after the sweep"))
+    else:
+        insts.append(R.ok(rid, "sweep:trailing", file, trailing.lineno, idiom=f"remaining events {ev_list}[next:] are timed after the sweep"))
+    return insts
+
+
 def rule_dep(ctx):
     """obligations inherited from shared code reached through the call graph (sa/props/deps.py)"""
     from .deps import dep_insts
@@ -749,6 +867,7 @@ SPECS = [
     RuleSpec("C07.R7", rule_r7, 3, "A8", "one chart per difficulty, from its own packages and the header tempo"),
     RuleSpec("C07.R8", rule_r8, 8, "A7", "times come from the measure table; integration steps 4 * d(measure) / bpm; header tempo first"),
     RuleSpec("C07.R9", rule_r9, 1, "A5", "events are sorted by their own position before the tempo sweep"),
+    RuleSpec("C07.R10", rule_r10, 4, "A8", "tempo sweep = merge of two sorted sequences: look-ahead on the element consumed next, bounds, first element, trailing events"),
     RuleSpec("C07.D", rule_dep, 1, "M0", "rules of the shared code (timing engine, list classes, stacker) that the operations of this property reach"),
 ]
 
@@ -762,6 +881,6 @@ META = dict(
         "under the same column key and outlives a package; positions are measure + slot/slots; the contradiction "
         "rule flags a None-able cursor ordered under its own falsiness; every difficulty becomes a chart; and in "
         "read_pkgs the integration steps have the shape 4*(measure difference)/bpm minutes, notes take their time "
-        "from the table entry of their own position, holds end at the entry of their tail. The flattened event list is sorted by the events' own position before the ascending tempo sweep (R9) — ordering the packages orders whole measures only."),
-    not_decided="the tempo sweep's control flow as a whole (which tempo is active where) — F15 shows it is wrong on the pinned tree; float rounding",
+        "from the table entry of their own position, holds end at the entry of their tail. The flattened event list is sorted by the events' own position before the ascending tempo sweep (R9) — ordering the packages orders whole measures only. The tempo sweep itself (R10) is a merge of the sorted note positions with the sorted tempo events: the look-ahead tests the element that the iteration consumes next, inside its bounds, with 'event position <= note position'; the first element consumed is the first event; the events left after the last note are consumed too, so every tempo point is timed (F15, fixed)."),
+    not_decided="float rounding of the integration; slot counts that do not divide a measure evenly",
 )
